@@ -36,21 +36,26 @@ func StringSliceToTextArray(values []string) (pgtype.TextArray, error) {
 }
 
 func MapStringAnyToJSONB(values map[string]any) (pgtype.JSONB, error) {
-	var jsonb pgtype.JSONB
+	var (
+		jsonb pgtype.JSONB
+
+		// The caller's map is never written to: nil slices are replaced in a shallow copy.
+		encodedValues = make(map[string]any, len(values))
+	)
 
 	for key, value := range values {
 		reflectValue := reflect.ValueOf(value)
 
-		if reflectValue.Kind() == reflect.Slice {
-			if reflectValue.IsNil() {
-				// Nil slices are not encoded by the sql driver to an empty array but rather as a JSON `null`. To avoid this, replace any
-				// nil slice reference with a new 0 capacity allocation.
-				values[key] = reflect.MakeSlice(reflectValue.Type(), 0, 0).Interface()
-			}
+		if reflectValue.Kind() == reflect.Slice && reflectValue.IsNil() {
+			// Nil slices are not encoded by the sql driver to an empty array but rather as a JSON `null`. To avoid this, replace any
+			// nil slice reference with a new 0 capacity allocation.
+			encodedValues[key] = reflect.MakeSlice(reflectValue.Type(), 0, 0).Interface()
+		} else {
+			encodedValues[key] = value
 		}
 	}
 
-	return jsonb, jsonb.Set(values)
+	return jsonb, jsonb.Set(encodedValues)
 }
 
 func PropertiesToJSONB(properties *graph.Properties) (pgtype.JSONB, error) {
